@@ -53,6 +53,12 @@ EXTRA_SHAPES = [
     ('assoc-and-skip', [204004, 31021, 12001, 206008, 63250, 1015, 204000, 206012, 63251]),
     ('loop-with-ops-inside', [103002, 201130, 12001, 201000, 104000, 31001, 202129, 12001, 4024, 202000]),
     ('nested-loops', [102003, 1001, 103000, 31001, 12001, 101002, 4024, 2001]),
+    # several marker operators in one subset whose operator context differs from marker to marker
+    ('markers-201-then-none', [12001, 12003, 223000, 101002, 31031, 201130, 223255, 201000, 223255]),
+    ('markers-none-then-202', [12001, 12003, 232000, 101002, 31031, 232255, 202129, 232255, 202000]),
+    ('markers-207-then-201', [12001, 4024, 224000, 101002, 31031, 8023, 207001, 224255, 207000, 201129, 224255, 201000]),
+    ('markers-208-then-none', [1015, 1019, 223000, 101002, 31031, 208004, 223255, 208000, 223255]),
+    ('markers-201-202-then-202', [12001, 12003, 10004, 223000, 101003, 31031, 201130, 202129, 223255, 201000, 223255, 202000, 223255]),
     ('two-bitmaps-in-sequence', [12001, 4024, 5001, 223000, 31031, 31031, 31031, 101000, 31001, 223255,
                                  232000, 31031, 31031, 31031, 101000, 31001, 232255]),
     ('explicit-after-replicated-bitmap', [12001, 4024, 5001, 223000, 101003, 31031, 101000, 31001, 223255,
@@ -368,10 +374,55 @@ def version_collisions(ctx):
                             break
 
 
+NEAR_PAIRS = [
+    # descriptor lists that differ only INSIDE a top-level replication (members or class-31 factor)
+    ([1001, 102002, 12001, 4024], [1001, 102002, 12001, 2001]),
+    ([1001, 101000, 31001, 12001], [1001, 101000, 31002, 12001]),
+    ([103002, 1001, 12001, 4024, 5001], [103002, 1001, 12001, 2001, 5001]),
+    ([1001, 102000, 31001, 12001, 101002, 4024], [1001, 102000, 31001, 12001, 101002, 10004]),
+    ([101003, 12001], [101002, 12001]),
+    ([1001, 102002, 12001, 4024, 2001], [1001, 102002, 12001, 4024, 2002]),
+]
+
+
+def structure_collisions(ctx):
+    """two messages of one table group whose descriptor lists differ only inside a replication, processed by one
+    compiled coder in both orders"""
+    from pybufrkit.decoder import Decoder
+    rng = ctx.rng
+    B, D = cases.tables(33)
+    plain = Decoder()
+    for pi, (ia, ib) in enumerate(NEAR_PAIRS):
+        if not ctx.mine(pi):
+            continue
+        try:
+            ma = R.build_message(ia, B, D, R.Policy(rng), 1, False, 4)
+            mb = R.build_message(ib, B, D, R.Policy(rng), 1, False, 4)
+        except R.Unsupported:
+            continue
+        msgs = {'A': ma.bytes, 'B': mb.bytes}
+        want = {k: outcome(lambda: snap(plain.process(b))) for k, b in msgs.items()}
+        for size in (1, 2, 50):
+            for order in ('AB', 'BA', 'ABAB'):
+                dec = Decoder(compiled_template_cache_max=size)
+                for step, k in enumerate(order):
+                    ctx.count('structure_collision_steps')
+                    ctx.evaluated((msgs[k].hex(), 'sc', size, order, step), True)
+                    o = outcome(lambda: snap(dec.process(msgs[k])))
+                    if o != want[k] and not (o[0] == 'exc' and want[k][0] == 'exc' and o[1] == want[k][1]):
+                        ctx.violate('history/near-identical-descriptor-lists/decode/cache%s' % (size if size < 3 else 'n'),
+                                    'lists %r and %r differ only inside a replication: one compiled decoder (cache %d), order %s: '
+                                    'message %s (step %d) differs from the interpreted decode (%s)'
+                                    % (ia, ib, size, order, k, step, why_differs(o, want[k])),
+                                    dict(idsA=ia, idsB=ib, order=order, size=size, hexA=msgs['A'].hex(), hexB=msgs['B'].hex()))
+                        break
+
+
 def run(ctx):
     rng = ctx.rng
     decs, encs = make_coders()
     version_collisions(ctx)
+    structure_collisions(ctx)
     B33, D33 = cases.tables(33)
     pool = []
     # hand-made shapes (scoped only)
